@@ -34,7 +34,7 @@ where
     let expr = expr.as_ref();
     let ascii_letters = "abcdefghijklmnopqrstuvwxyzABCDEFGHIJKLMNOPQRSTUVWXYZ";
     let normalized = expr
-        .replace(" ", "")
+        .replace(char::is_whitespace, "") // the compiler re-spaces (and line-breaks) macro input
         .replace("^-", "^@")
         .replace("-", "+-")
         .replace("^@", "^-"); // ^- -> ^@ protects negative exponents
